@@ -7,6 +7,7 @@ import (
 	"fmt"
 	"io"
 	"maps"
+	"math"
 	"os"
 	"path/filepath"
 	"sort"
@@ -338,6 +339,10 @@ func (m *Manager) Rotate() error {
 
 // rotateLocked advances to a new segment; caller must hold m.mu.
 func (m *Manager) rotateLocked() error {
+	if m.activeID == math.MaxUint32 {
+		// Segment ids order the log; wrapping to 0 would put the new records first on replay.
+		return fmt.Errorf("wal: segment id space exhausted")
+	}
 	nextID := m.activeID + 1
 	return m.switchSegmentLocked(nextID, true)
 }
